@@ -34,6 +34,23 @@ let () =
          | "NBINS" ->
            let l = nf () in let u = nf () in let wd = nf () in
            Printf.printf "%d\n" (int_of_z (nbins_round fops l u wd))
+         | "REMAP" ->
+           (* REMAP nd nxA.. nxB.. lowerA.. lowerB.. width.. periodic.. dataA.. *)
+           let nd = ni () in
+           let nxa = List.init nd (fun _ -> ni ()) in let nxb = nzlist nd in
+           let la = nflist nd in let lb = nflist nd in let wd = nflist nd in
+           let per = List.init nd (fun _ -> ni () <> 0) in
+           let nta = List.fold_left ( * ) 1 nxa in
+           let data = nflist nta in
+           (* records in the order write_multicol emits them: incr order of the source grid *)
+           let rec idx k dims = match dims with [] -> [] | _ ->
+             let rec go k ds = match ds with [] -> [] | d :: r -> let rest = List.fold_left ( * ) 1 r in (k / rest) :: go (k mod rest) r in go k dims in
+           let recs = List.mapi (fun k v ->
+               let ix = idx k nxa in
+               let x = List.map2 (fun (l, w) i -> bin_to_value fops l w (z_of_int i)) (List.combine la wd) ix in
+               (x, v)) data in
+           let g = { g_lower = lb; g_width = wd; g_nx = nxb; g_per = per } in
+           Printf.printf "%s\n" (String.concat " " (List.map hex (remap fops g recs)))
          | "HIST" ->
            let vm = ni () <> 0 in let sz = ni () <> 0 in let nd = ni () in
            let lower = nflist nd in let width = nflist nd in let nx = nzlist nd in
